@@ -61,6 +61,7 @@ func awkValues() []any {
 		stk.ComparisonOperator(0), stk.ComparisonOperator(9), userOp{"", ""}, // 49-51
 		map[float64]int{math.NaN(): 1}, map[float64]string{math.NaN(): "x", 1: "y"}, // 52-53 NaN keys cannot be looked up
 		[]any{map[float64]int{math.NaN(): 1}}, struct{ M map[float64]int }{map[float64]int{math.NaN(): 2}}, // 54-55
+		sliceOp{"~", "custom"}, sliceOp{"", ""}, // 56-57 operators of an uncomparable Go type
 	}
 }
 
@@ -278,5 +279,5 @@ func genAwkward(ctx *Ctx, emit func(any, string)) {
 
 func init() {
 	register(&Family{Name: "awkward", Gen: genAwkward, Run: runAwkward,
-		Rule: "exhaustive: 24 methods taking `any`/interfaces (Push, Insert, Replace, IsEqual, Transfer, SetDelimiter, SetSymbol, SetEncap, Set/UnsetLogLevel, SetLogger, Marshal, ConvertStack, ConvertCondition, Cond (each argument), SetKeyword, SetExpression, SetOperator, Condition.IsEqual/SetEncap/Evaluate, Auxiliary.Set) x a catalogue of 56 awkward Go values (typed nils of depth 1-2, zero Stack/Condition/aliases, funcs, chans, maps, private-field structs, NaN, complex, uintptr, unsafe pointer, empty/nil slices, arrays, errors, stringers, pointers to pointers, bogus operators, NaN-keyed maps) x receiver states; then a battery of observers (String, Unmarshal, Marshal of it, IsEqual self/copy both ways, Traverse, IsNesting, Less, Front, Back, Defrag, Reveal, Push/Pop). Observed: any panic (with the step), receiver still initialised and usable. every case is non-trivial; distinct = input hash"})
+		Rule: "exhaustive: 24 methods taking `any`/interfaces (Push, Insert, Replace, IsEqual, Transfer, SetDelimiter, SetSymbol, SetEncap, Set/UnsetLogLevel, SetLogger, Marshal, ConvertStack, ConvertCondition, Cond (each argument), SetKeyword, SetExpression, SetOperator, Condition.IsEqual/SetEncap/Evaluate, Auxiliary.Set) x a catalogue of 58 awkward Go values (typed nils of depth 1-2, zero Stack/Condition/aliases, funcs, chans, maps, private-field structs, NaN, complex, uintptr, unsafe pointer, empty/nil slices, arrays, errors, stringers, pointers to pointers, bogus operators, NaN-keyed maps, operators of an uncomparable type) x receiver states; then a battery of observers (String, Unmarshal, Marshal of it, IsEqual self/copy both ways, Traverse, IsNesting, Less, Front, Back, Defrag, Reveal, Push/Pop). Observed: any panic (with the step), receiver still initialised and usable. every case is non-trivial; distinct = input hash"})
 }
